@@ -30,7 +30,7 @@ var profC02 = ConcProfile{
 	Profile: Profile{
 		MaxBars: 8, MinBars: 1, Refresh: []string{"autort", "autort", "autoinj", "manual", "none"}, QLens: []int{-1, -1, 0, 1, 2, -2, -3},
 		Pop: 25, Queue: 15, Prio: true, Ext: 10, Text: 3, Rm: 25, NoPop: 15, AbortW: 2,
-		SyncDecors: 1, PlainDecors: 1, Wraps: true, Fillers: []string{"bar", "tag", "nop", "spinner", "spinnerv"}, Notifier: 40, Listeners: 30, Faults: 10, DisabledPct: 10, Delay: 8, DelayNever: 50, SmallWidth: 10, UserWG: 15,
+		SyncDecors: 1, PlainDecors: 1, Wraps: true, Fillers: []string{"bar", "tag", "nop", "spinner", "spinnerv"}, Notifier: 40, Listeners: 30, Faults: 10, DisabledPct: 10, Delay: 8, DelayNever: 50, SmallWidth: 10, UserWG: 15, DebugNil: 12, Peer: 25, BarePct: 8,
 	},
 	MaxBlocks: 4, MaxBlockOps: 8, Pars: 2, CancelIn: 60, PerturbMax: 3, HoldPct: 40, SyncPct: 50, LateOps: true,
 }
